@@ -140,14 +140,14 @@ def removeNode (s : State κ τ) (e : Env) (n : Nat) : Except PyErr (State κ τ
         .ok (s3, e3, some item)
 
 /-- `mark_test_complete` -/
-def markComplete (split : τ → κ) (s : State κ τ) (e : Env) (n i : Nat) : Except PyErr (State κ τ × Env) := do
-  let col ← s.registered.get n
-  let t ← match col[i]? with | some t => pure t | none => .error .indexError
-  let scope := split t
-  let w ← s.assigned.get n
-  let wu ← w.get scope
-  let s' := { s with assigned := s.assigned.set n (AList.set w scope (AList.set wu t true)) }
-  reschedule s' e n
+def markComplete (split : τ → κ) (s : State κ τ) (e : Env) (n i : Nat) : Except PyErr (State κ τ × Env) :=
+  (s.registered.get n).bind fun col =>
+    match col[i]? with
+    | none => .error .indexError
+    | some t =>
+      (s.assigned.get n).bind fun w =>
+        (w.get (split t)).bind fun wu =>
+          reschedule { s with assigned := s.assigned.set n (AList.set w (split t) (AList.set wu t true)) } e n
 
 def collectionDiffs (first : Nat) (col : List τ) (rest : AList Nat (List τ)) : List SOut :=
   (rest.filter (fun p => p.2 ≠ col)).map (fun p => SOut.collectReport p.1 first)
